@@ -43,6 +43,8 @@ class StubAmbiguous(StubError):
 class Animal:
     centroid: tuple  # (x, y) original-image coordinates
     pts: list        # per node (x, y) or None (invisible)
+    rendered: bool = True   # False: labelled, but the centroid network does not see it (no bump)
+    gain: float = 1.0       # height of its centroid bump (weak vs strong detections)
 
 
 @dataclass
@@ -53,6 +55,7 @@ class FrameSpec:
     animals: list = field(default_factory=list)
     video: int = 0
     frame_idx: int = 0
+    phantoms: list = field(default_factory=list)   # extra centroid bumps (x, y) that are NOT labelled animals
     undershoot: float = 0.0   # > 0: the ideal maps of this frame dip to about -undershoot away from a bump
 
 
@@ -210,11 +213,19 @@ class IdealNet(torch.nn.Module):
                     cm = generate_confmaps(pts.unsqueeze(0), img_hw=(Hin, Win), sigma=self.sigma,
                                            output_stride=self.os)
                 else:
-                    if fr.animals:
-                        cs = torch.tensor([[an.centroid[0] * a, an.centroid[1] * a] for an in fr.animals],
-                                          dtype=torch.float32)
-                        cm = generate_multiconfmaps(cs.unsqueeze(0), img_hw=(Hin, Win), num_instances=len(fr.animals),
+                    bumps = [(an.centroid, an.gain) for an in fr.animals if an.rendered] + [(ph, 1.0) for ph in fr.phantoms]
+                    if bumps and all(g == 1.0 for _, g in bumps):
+                        cs = torch.tensor([[c[0] * a, c[1] * a] for c, _ in bumps], dtype=torch.float32)
+                        cm = generate_multiconfmaps(cs.unsqueeze(0), img_hw=(Hin, Win), num_instances=len(bumps),
                                                     sigma=self.sigma, output_stride=self.os, is_centroids=True)
+                    elif bumps:
+                        # bumps of different heights: the repo's map of each bump, scaled, combined by max
+                        cm = None
+                        for c, g in bumps:
+                            one = torch.tensor([[c[0] * a, c[1] * a]], dtype=torch.float32)
+                            m1 = float(g) * generate_multiconfmaps(one.unsqueeze(0), img_hw=(Hin, Win), num_instances=1,
+                                                                   sigma=self.sigma, output_stride=self.os, is_centroids=True)
+                            cm = m1 if cm is None else torch.maximum(cm, m1)
                     else:
                         from sleap_nn.data.utils import make_grid_vectors
                         xv, yv = make_grid_vectors(Hin, Win, self.os)
@@ -342,20 +353,24 @@ def _backend_cls():
     class ArrayBackend(VideoBackend):
         """`VideoBackend` over a numpy array (T, H, W, C) held in memory."""
         arr: np.ndarray = None
+        index_map: dict = None      # sparse videos: frame index → position in `arr`
 
         @property
         def num_frames(self) -> int:
-            return int(self.arr.shape[0])
+            return int(self.arr.shape[0]) if not self.index_map else max(self.index_map) + 1
+
+        def _pos(self, frame_idx):
+            return int(frame_idx) if not self.index_map else self.index_map[int(frame_idx)]
 
         @property
         def img_shape(self):
             return tuple(int(v) for v in self.arr.shape[1:])
 
         def _read_frame(self, frame_idx: int) -> np.ndarray:
-            return self.arr[frame_idx].copy()
+            return self.arr[self._pos(frame_idx)].copy()
 
         def _read_frames(self, frame_inds: list) -> np.ndarray:
-            return np.stack([self.arr[i] for i in frame_inds]).copy()
+            return np.stack([self.arr[self._pos(i)] for i in frame_inds]).copy()
 
         def read_test_frame(self):
             return self.arr[0].copy()
@@ -384,6 +399,13 @@ def _mem_video_cls():
 RAMP0 = 40  # channel 1 = RAMP0 + x, channel 2 = RAMP0 + y of "ramp" videos
 
 
+def _index_map(frames):
+    """sparse / large frame indices: when the FrameSpecs of a video do not sit at 0..T-1, the backend maps
+    `frame_idx` → array position (the video then "has" max+1 frames, of which only these exist)"""
+    idxs = [int(f.frame_idx) for f in frames]
+    return None if idxs == list(range(len(frames))) else {i: k for k, i in enumerate(idxs)}
+
+
 def make_video(frames: list, name="mem.mp4", ramp=False):
     """`sio.Video` over synthetic frames (all of one size).  Default: one channel of constant
     intensity = the frame's code.  `ramp=True`: three channels — the code, `RAMP0 + x`, `RAMP0 + y` —
@@ -400,10 +422,10 @@ def make_video(frames: list, name="mem.mp4", ramp=False):
         xs = np.broadcast_to(RAMP0 + np.arange(W)[None, :], (H, W))
         ys = np.broadcast_to(RAMP0 + np.arange(H)[:, None], (H, W))
         arr = np.stack([np.stack([np.full((H, W), f.code), xs, ys], axis=-1).astype(np.uint8) for f in frames])
-        be = _ARRAY_BACKEND(filename=name, grayscale=False, keep_open=True, arr=arr)
+        be = _ARRAY_BACKEND(filename=name, grayscale=False, keep_open=True, arr=arr, index_map=_index_map(frames))
         return _mem_video_cls()(filename=name, backend=be, open_backend=False)
     arr = np.stack([np.full((H, W, 1), f.code, dtype=np.uint8) for f in frames])
-    be = _ARRAY_BACKEND(filename=name, grayscale=True, keep_open=True, arr=arr)
+    be = _ARRAY_BACKEND(filename=name, grayscale=True, keep_open=True, arr=arr, index_map=_index_map(frames))
     return _mem_video_cls()(filename=name, backend=be, open_backend=False)
 
 
@@ -426,7 +448,7 @@ def make_labels(videos: list, node_names=None, order=None, ramp=False):
         for a in f.animals:
             arr = np.array([[np.nan, np.nan] if p is None else [p[0], p[1]] for p in a.pts], dtype=float)
             insts.append(sio.Instance.from_numpy(arr, skeleton=skel))
-        lfs.append(sio.LabeledFrame(video=vids[vi], frame_idx=k, instances=insts))
+        lfs.append(sio.LabeledFrame(video=vids[vi], frame_idx=int(f.frame_idx), instances=insts))
     return sio.Labels(labeled_frames=lfs, videos=vids, skeletons=[skel]), vids
 
 
@@ -521,6 +543,42 @@ def build_topdown_gt(scene, skeletons, *, sc, os_c, ms_c, max_hw, batch_size, re
                          batch_size=batch_size, max_instances=max_instances, preprocess_config=None)
     p._initialize_inference_model()
     return p, cnet
+
+
+@contextlib.contextmanager
+def from_numpy_shim():
+    """Environment shim: sleap-io 0.9.2 renamed the keyword arguments of `PredictedInstance.from_numpy`
+    that the repo's `_make_labeled_frames_from_generator` still uses (points → points_data,
+    instance_score → score)."""
+    import sleap_io as sio
+    orig = sio.PredictedInstance.from_numpy
+
+    def shim(*a, **k):
+        if "points" in k:
+            k["points_data"] = k.pop("points")
+        if "instance_score" in k:
+            k["score"] = k.pop("instance_score")
+        return orig(*a, **k)
+    sio.PredictedInstance.from_numpy = shim
+    try:
+        yield
+    finally:
+        sio.PredictedInstance.from_numpy = orig
+
+
+def labeled_frames_of(predictor, outputs):
+    """The REAL consumer (`_make_labeled_frames_from_generator`) on raw outputs → canonical records
+    [(video index, frame_idx, [instance points as lists with None for NaN])] in output order."""
+    with from_numpy_shim():
+        labels = predictor._make_labeled_frames_from_generator(iter(outputs))
+    recs = []
+    for lf in labels.labeled_frames:
+        insts = []
+        for inst in lf.instances:
+            arr = inst.numpy()
+            insts.append([None if np.isnan(q).any() else [float(q[0]), float(q[1])] for q in arr])
+        recs.append((predictor.videos.index(lf.video), int(lf.frame_idx), insts))
+    return recs
 
 
 def run_predict(predictor, provider: str, source):
